@@ -13,7 +13,8 @@ EXTENDS PoolCore, Json
 
 CONSTANTS Depth,      \* controllable steps per scenario
           Actors,     \* clients with the full alphabet
-          Probes      \* clients that only connect, run plain statements, leave
+          Probes,     \* clients that only connect, run plain statements, leave
+          ProbesLast  \* TRUE: probes act only after every actor has gone (hand-off scenarios)
 
 VARIABLE hist
 
@@ -31,34 +32,39 @@ Rec(op, c, k) == [op |-> op, c |-> c, k |-> k]
 Ctl(op, c, k) == hist' = Append(hist, Rec(op, c, k))
 
 MayAct == ~InternalEnabled /\ (hist = <<>> \/ Settled) /\ Steps < Depth
+ProbeMay(c) == c \in Actors \/ ~ProbesLast \/ \A a \in Actors : pc[a] = "gone"
 
 ProbeKinds == {"stmt", "begin", "commit"}
 
 Controllable ==
   /\ MayAct
   /\ \E c \in Clients :
-       \/ Connect(c) /\ Ctl("connect", c, "")
-       \/ \E k \in Kinds : (c \in Actors \/ k \in ProbeKinds) /\ SendFirst(c, k) /\ Ctl("send", c, k)
-       \/ \E k \in Kinds : (c \in Actors \/ k \in ProbeKinds) /\ NextMsg(c, k) /\ Ctl("send", c, k)
-       \/ Leave(c) /\ Ctl("leave", c, "")
-       \/ c \in Actors /\ pc[c] = "intx" /\ EndWithCleanup(c, TRUE) /\ Ctl("exit_in_tx", c, "")
-       \/ c \in Actors /\ pc[c] = "intx" /\ EndWithCleanup(c, FALSE) /\ Ctl("idle_tx_timeout", c, "")
-       \/ c \in Actors /\ EarlyReturn(c) /\ Ctl("early_return", c, "")
-       \/ CheckoutTimeout(c) /\ Ctl("checkout_timeout", c, "")
-       \/ c \in Actors /\ pc[c] \in {"idle", "intx", "wait"} /\ Cancel(c) /\ Ctl("cancel", c, "")
+     /\ ProbeMay(c)
+     /\ \/ Connect(c) /\ Ctl("connect", c, "")
+        \/ \E k \in Kinds : (c \in Actors \/ k \in ProbeKinds) /\ SendFirst(c, k) /\ Ctl("send", c, k)
+        \/ \E k \in Kinds : (c \in Actors \/ k \in ProbeKinds) /\ NextMsg(c, k) /\ Ctl("send", c, k)
+        \/ Leave(c) /\ Ctl("leave", c, "")
+        \/ c \in Actors /\ pc[c] = "intx" /\ EndWithCleanup(c, TRUE) /\ Ctl("exit_in_tx", c, "")
+        \/ c \in Actors /\ pc[c] = "intx" /\ EndWithCleanup(c, FALSE) /\ Ctl("idle_tx_timeout", c, "")
+        \/ c \in Actors /\ EarlyReturn(c) /\ Ctl("early_return", c, "")
+        \/ CheckoutTimeout(c) /\ Ctl("checkout_timeout", c, "")
+        \/ c \in Actors /\ pc[c] \in {"idle", "intx", "wait"} /\ Cancel(c) /\ Ctl("cancel", c, "")
 
 Internal ==
   /\ \E c \in Clients :
        \/ \E s \in Conns : Checkout(c, s)
-       \/ Forward(c)
+       \/ Forward(c) \/ StatementTimeout(c)
        \/ pc[c] = "cleanup" /\ EndWithCleanup(c, FALSE)
   /\ UNCHANGED hist
+
+\* bad: this behaviour breaks a PoolCore invariant (only possible with deviations enabled)
+Bad == viol # {} \/ ~IdleIsClean \/ ~NoLeak \/ ~MapSound \/ ~ExclusiveHold \/ ~Bounded
 
 Settle ==
   /\ ~InternalEnabled /\ hist # <<>> /\ ~Settled
   /\ hist' = Append(hist, [op |-> "state", c |-> "", k |-> "",
                            pcs |-> [c \in Clients |-> pc[c]],
-                           holds |-> [c \in Clients |-> held[c] # NONE]])
+                           holds |-> [c \in Clients |-> held[c] # NONE], bad |-> Bad])
   /\ UNCHANGED vars
 
 GNext == Controllable \/ Internal \/ Settle
@@ -67,5 +73,6 @@ GSpec == GInit /\ [][GNext]_gvars
 
 \* A history is complete when the step budget is used or nothing controllable is left.
 Complete == Settled /\ (Steps >= Depth \/ ~ENABLED Controllable)
-Emit == Complete => PrintT(<<"SCENARIO", ToJson(hist)>>)
+EverBad == \E i \in 1..Len(hist) : hist[i].op = "state" /\ hist[i].bad
+Emit == Complete => PrintT(<<"SCENARIO", ToJson([steps |-> hist, bad |-> EverBad])>>)
 =============================================================================
